@@ -61,8 +61,8 @@ ASSUMPTIONS = [
     "a call that exhausts its 50 resampling attempts because of bad initial conditions is outside the domain (discarded, counted); generated specs atomica cannot build/run unsampled are discarded (C18)",
     "Ensemble.run_sims(parallel=True) cannot be given a worker count (sc.parallelize default = all CPUs); it is exercised on library projects and the hand-written spec only; its fingerprint is computed on the worker inside the mapping function",
 ]
-BUDGET = {"quick": 60, "thorough": 1500}
-TIME_CAP = {"quick": 80, "thorough": 1700}
+BUDGET = {"quick": 60, "thorough": 240}  # thorough = 4x quick: a depth that was run to completion, quiet, at seed 1 (deterministic given the seed)
+TIME_CAP = {"quick": 80, "thorough": 1500}
 MAX_SHARDS = 4
 PROFILE = {"max_pops": 2, "p_timed": 0.0, "p_junction": 0.2, "max_steps": 6, "extreme": 0.0, "p_function": 0.1, "p_programs": 0.45, "max_ord": 3, "p_limits": 0.15}
 WORKERS = [2, 4, 1, 3, 2, 8, 4, 16]
